@@ -761,9 +761,13 @@ def run_world(case, tape, ctx, w):
                 # Server Command Reference: /b_read bufnum path fileStart
                 # numFrames bufStart leaveOpen completion; cueing fills the
                 # whole buffer from its start and leaves the file open
+                # (the number of frames as the client knows it now: a late
+                # /b_info for an earlier buffer of the same number may have
+                # rewritten it since the buffer was made)
+                frames_now = b.frames
                 b.cue(path, op[3])
-                return [('m', ['/b_read', num, path, op[3],
-                               model[op[2]].get('frames', 0), 0, 1, 0])]
+                return [('m', ['/b_read', num, path, op[3], frames_now, 0, 1,
+                               0])]
             if sub == 'read':
                 b.read(path, op[3], op[4], op[5], op[6])
                 q = ['/b_query', num]
